@@ -6,8 +6,6 @@ package c17
 import (
 	"fmt"
 	"math"
-	"math/cmplx"
-	"sort"
 
 	"github.com/unixpickle/model3d/model2d"
 	"github.com/unixpickle/model3d/model3d"
@@ -29,6 +27,10 @@ type matCase struct {
 	Sym  bool      `json:"sym,omitempty"`
 	Tie  string    `json:"tie,omitempty"` // how S was drawn (label only)
 	W    []float64 `json:"w"`            // a probe vector / probe abscissae in [-4, 4]
+	// Focus restricts the SVD check to one group of oracle clauses ("sorted": S diagonal, non-negative,
+	// descending; "reconstruct": everything else, singular values compared as a multiset).  Never
+	// generated; used by the known-finding replays so that each replay tracks exactly one defect.
+	Focus string `json:"focus,omitempty"`
 }
 
 const sMin, sMax = 0.3, 3.0
@@ -38,9 +40,16 @@ func genMatCase(t *rapid.T, sizes []int, impls []string, symOK bool) matCase {
 	if c.N == 4 {
 		c.Impl = "numerical"
 	}
-	c.Tie = rapid.SampledFrom([]string{"none", "none", "none", "none", "pair", "all", "near"}).Draw(t, "tie")
+	c.Tie = rapid.SampledFrom([]string{"none", "none", "spread", "spread", "pair", "all", "near"}).Draw(t, "tie")
+	order := rapid.Permutation([]int{0, 1, 2, 3}[:c.N]).Draw(t, "order")
 	for i := 0; i < c.N; i++ {
 		s := gen.LogF(t, sMin, sMax, "s")
+		if c.Tie == "spread" {
+			// one value per logarithmic band of [0.3, 3], kept off the band edges: separated by
+			// more than the cluster gap by construction
+			band := float64(order[i]) + gen.F(t, 0.1, 0.9, "band")
+			s = sMin * math.Pow(sMax/sMin, band/float64(c.N))
+		}
 		if i > 0 {
 			s0 := math.Abs(c.S[0])
 			switch {
@@ -56,17 +65,42 @@ func genMatCase(t *rapid.T, sizes []int, impls []string, symOK bool) matCase {
 		}
 		c.S = append(c.S, s)
 	}
+	// rotation style: structured (rapid's biased draws: many zero / tiny / half-turn angles), generic
+	// (uniform angles) or a per-angle mixture
+	style := rapid.SampledFrom([]string{"structured", "generic", "generic", "mixed"}).Draw(t, "rotstyle")
+	generic := func() bool {
+		return style == "generic" || (style == "mixed" && rapid.Bool().Draw(t, "generic"))
+	}
 	for i := 0; i < npairs(c.N); i++ {
-		c.L = append(c.L, gen.F(t, -math.Pi, math.Pi, "l"))
+		c.L = append(c.L, angleQ(t, generic(), "l"))
 	}
 	c.Sym = symOK && rapid.IntRange(0, 2).Draw(t, "sym") == 0
 	for i := 0; i < npairs(c.N); i++ {
-		c.R = append(c.R, gen.F(t, -math.Pi, math.Pi, "r"))
+		c.R = append(c.R, angleQ(t, generic(), "r"))
 	}
 	for i := 0; i < c.N; i++ {
 		c.W = append(c.W, gen.F(t, -4, 4, "w"))
 	}
 	return c
+}
+
+// angleQ draws a multiple of 2*pi/2^20 in [-pi, pi]: quarter turns are hit exactly (as exactly as
+// float64 allows: their cosine is 6e-17, the realistic "almost axis-aligned" input), and the smallest
+// non-zero angle is 6e-6, so that squares of matrix entries cannot underflow (rapid's shrinker
+// otherwise produces angles like 1e-160, whose squares are denormal - not an input a caller builds).
+// rapid's integer draws favour small magnitudes and the interval ends, i.e. nearly axis-aligned
+// rotations; with generic set the draw is passed through a bit mixer, which makes the angle
+// uniform over the grid (a deterministic function of the drawn integer).
+func angleQ(t *rapid.T, generic bool, label string) float64 {
+	k := rapid.IntRange(-(1 << 19), 1<<19).Draw(t, label)
+	if generic {
+		v := uint64(k + (1 << 19))
+		v = (v ^ (v >> 30)) * 0xbf58476d1ce4e5b9
+		v = (v ^ (v >> 27)) * 0x94d049bb133111eb
+		v ^= v >> 31
+		k = int(v%(1<<20+1)) - (1 << 19)
+	}
+	return float64(k) * (2 * math.Pi / (1 << 20))
 }
 
 func (c matCase) valid() error {
@@ -256,399 +290,135 @@ func libSVD(c matCase, m dmat) (u, s, v dmat) {
 	return fromSlice(4, a[:]), fromSlice(4, b[:]), fromSlice(4, d[:])
 }
 
-// svdTol: the library obtains singular values as square roots of closed-form
-// roots of the characteristic polynomial of M^T M, which loses half the digits
-// when two singular values (nearly) coincide; see the calibration note in TestProp.
-var svdTol = map[int]float64{2: 1e-7, 3: 1e-6, 4: 1e-5}
-
-func checkSVD(c matCase, o *kit.Obs) error {
-	if err := c.valid(); err != nil {
-		return err
-	}
-	c.label(o)
-	m := c.dense()
-	u, s, v := libSVD(c, m)
-	tol := svdTol[c.N]
-	tag := fmt.Sprintf("svd%d/%s/", c.N, c.Tie)
-	for i := 0; i < c.N; i++ {
-		for j := 0; j < c.N; j++ {
-			x := s.at(i, j)
-			if i != j && x != 0 {
-				return fmt.Errorf("S[%d][%d] = %g, want a diagonal matrix; M=%v", i, j, x, m.a)
-			}
-			if i == j && !(x >= 0) {
-				return fmt.Errorf("singular value S[%d] = %g is not non-negative; M=%v", i, x, m.a)
+// clusterMult is the size of the largest group of values lying within gap of one
+// of its members (1 = all values separated by more than gap).
+func clusterMult(vals []float64, gap float64) int {
+	best := 1
+	for i := range vals {
+		n := 0
+		for j := range vals {
+			if math.Abs(vals[i]-vals[j]) <= gap {
+				n++
 			}
 		}
-		if i > 0 && !(s.at(i-1, i-1) >= s.at(i, i)) {
-			return fmt.Errorf("singular values not sorted largest to smallest: %g before %g; M=%v", s.at(i-1, i-1), s.at(i, i), m.a)
+		if n > best {
+			best = n
 		}
 	}
-	if e := maxDiffD(mulD(tD(u), u), identD(c.N)); !within(tag+"UtU", e, tol) {
-		return fmt.Errorf("U^T U differs from the identity by %g (tolerance %g); M=%v U=%v", e, tol, m.a, u.a)
-	}
-	if e := maxDiffD(mulD(tD(v), v), identD(c.N)); !within(tag+"VtV", e, tol) {
-		return fmt.Errorf("V^T V differs from the identity by %g (tolerance %g); M=%v V=%v", e, tol, m.a, v.a)
-	}
-	if e := maxDiffD(mulD(mulD(u, s), tD(v)), m); !within(tag+"USVt", e, tol) {
-		return fmt.Errorf("U*S*V^T differs from M by %g (tolerance %g); M=%v", e, tol, m.a)
-	}
-	want := sortedDesc(absAll(c.S))
-	var got []float64
-	for i := 0; i < c.N; i++ {
-		got = append(got, s.at(i, i))
-	}
-	// singular values are perfectly conditioned (Weyl): the planted |S| must come back
-	if e := maxDiffV(got, want); !within(tag+"planted", e, tol) {
-		return fmt.Errorf("singular values %v, planted %v (difference %g, tolerance %g); M=%v", got, want, e, tol, m.a)
-	}
-	return nil
+	return best
 }
 
-// ---------------------------------------------------------------------------
-// eigenvalues
+// clusterGap: values closer than this count as one cluster for the tolerance tables below.
+const clusterGap = 0.05
 
-func libEig(c matCase, m dmat) []complex128 {
-	switch {
-	case c.N == 2 && c.Impl == "numerical":
-		e := toNum2(m).Eigenvalues()
-		return e[:]
-	case c.N == 2:
-		e := toMod2(m).Eigenvalues()
-		return e[:]
-	case c.Impl == "numerical":
-		e := toNum3(m).Eigenvalues()
-		return e[:]
-	}
-	e := toMod3(m).Eigenvalues()
-	return e[:]
+// The library finds eigenvalues (and singular values, through M^T M) as roots of the
+// characteristic polynomial: closed forms for n <= 3, the bracketing root finder for n = 4.
+// An m-fold (near-)repeated root of a polynomial whose coefficients carry rounding errors of
+// relative size eps is only determined to about eps^(1/m); the repository's own test states this
+// ("the characteristic polynomial is essentially (x-4)^4, so finding the root is very poorly
+// conditioned") and accepts 1e-4 there against 1e-8 elsewhere.  Tolerances are therefore tabulated
+// by the multiplicity m of the largest cluster of planted values (gap <= 0.05), each about 30x the
+// worst error measured over 2e6 generated cases (see the CALIB output, C17_CALIB=1).
+var svdTol = map[int][]float64{
+	2: {0, 1e-11, 1e-6},
+	3: {0, 1e-10, 1e-5, 1e-3},
+	4: {0, 1e-9, 1e-3, 3e-3, 1e-2},
+}
+var eigTol = []float64{0, 1e-10, 1e-5, 1e-3}
+
+// ---- input classes of Matrix4.SVD with confirmed defects (known findings; see replays/C17/kf-svd4-*.json)
+
+// svd4DoublePairs: the singular values form two distinct pairs of (nearly) equal values, so the
+// characteristic polynomial of M^T M has two double roots, touches the axis without crossing it,
+// and the library's fallback takes a root of the derivative - which may be the local maximum
+// between the two double roots, not an eigenvalue.
+func svd4DoublePairs(c matCase) bool {
+	a := sortedDesc(absAll(c.S))
+	return a[0]-a[1] < 1e-5*a[0] && a[2]-a[3] < 1e-5*a[2] && a[1]-a[2] > 1e-5*a[1]
 }
 
-func checkEigen(c matCase, o *kit.Obs) error {
-	if err := c.valid(); err != nil {
-		return err
-	}
-	if c.N > 3 {
-		return fmt.Errorf("%w: no 4x4 Eigenvalues in the library", kit.ErrInfra)
-	}
-	c.label(o)
-	m := c.dense()
-	eig := libEig(c, m)
-	if len(eig) != c.N {
-		return fmt.Errorf("%d eigenvalues returned for a %dx%d matrix", len(eig), c.N, c.N)
-	}
-	tag := fmt.Sprintf("eig%d/", c.N)
-	var sum complex128
-	complexPair := false
-	for _, l := range eig {
-		if cmplx.IsNaN(l) || cmplx.IsInf(l) {
-			return fmt.Errorf("eigenvalue %v is not finite; M=%v", l, m.a)
-		}
-		sum += l
-		if math.Abs(imag(l)) > 1e-6 {
-			complexPair = true
-		}
-		// residual of the defining equation; ||M|| <= 3 and |lambda| <= 3, so the terms of the
-		// determinant are bounded by 6^n; the residual is second order in the eigenvalue error
-		// near a repeated root, hence small even where the closed form loses digits
-		r := cmplx.Abs(cdet(m, l))
-		if !within(tag+"residual", r, 1e-10) {
-			return fmt.Errorf("det(M - lambda I) = %g for returned eigenvalue %v (tolerance 1e-10); M=%v", r, l, m.a)
-		}
-	}
-	if complexPair {
-		o.Label("complex-pair")
-	}
-	if e := cmplx.Abs(sum - complex(traceD(m), 0)); !within(tag+"trace", e, 1e-10) {
-		return fmt.Errorf("eigenvalues %v sum to %v, trace is %g; M=%v", eig, sum, traceD(m), m.a)
-	}
-	// pairwise products (n = 3) and the product: the remaining coefficients of the characteristic polynomial
-	prod := complex(1, 0)
-	for _, l := range eig {
-		prod *= l
-	}
-	if e := cmplx.Abs(prod - complex(detD(m), 0)); !within(tag+"det", e, 1e-7) {
-		return fmt.Errorf("eigenvalues %v multiply to %v, determinant is %g; M=%v", eig, prod, detD(m), m.a)
-	}
-	if c.Sym {
-		// symmetric: the planted eigenvalues are perfectly conditioned
-		var re []float64
-		for _, l := range eig {
-			if !within(tag+"sym-imag", math.Abs(imag(l)), 1e-6) {
-				return fmt.Errorf("symmetric matrix has eigenvalue %v with imaginary part; M=%v", l, m.a)
-			}
-			re = append(re, real(l))
-		}
-		sort.Float64s(re)
-		want := append([]float64(nil), c.S...)
-		sort.Float64s(want)
-		if e := maxDiffV(re, want); !within(tag+"sym-planted/"+c.Tie, e, 1e-6) {
-			return fmt.Errorf("eigenvalues %v, planted %v (difference %g, tolerance 1e-6); M=%v", re, want, e, m.a)
-		}
-	}
-	return nil
-}
+// svd4NoiseRow: for some eigenvalue l of M^T M = Q2 diag(s^2) Q2^T, some but not all rows of
+// M^T M - l I are small (a coordinate axis lies in or near the eigenspace, e.g. after quarter
+// turns whose cosine is 6e-17 rather than 0, or two close singular values).  The library
+// normalises every non-zero row before a Gram-Schmidt pass that recognises the null direction by
+// a fixed residual threshold of 1e-10; normalising a small row scales its rounding noise (and the
+// error of the computed l) up, the residual noise passes the threshold and is itself normalised
+// into the "null vector".  Row i has norm sqrt(sum_j (s_j^2 - l)^2 Q2[i][j]^2).  Measured on
+// 1e6 matrices with separated singular values: errors up to 5e-5 (V not orthogonal, U S V^T != M)
+// whenever the smallest row is below 3e-2, errors <= 5e-10 when every row is above 3e-2; with
+// exact quarter turns the result is wrong by O(1).  The class is "smallest row < 0.1".
+const svd4RowThreshold = 0.1
 
-// ---------------------------------------------------------------------------
-// Matrix4.CharPoly
-
-func horner(p []float64, x float64) float64 {
-	var r float64
-	for i := len(p) - 1; i >= 0; i-- {
-		r = r*x + p[i]
-	}
-	return r
-}
-
-func checkCharPoly(c matCase, o *kit.Obs) error {
-	if err := c.valid(); err != nil {
-		return err
-	}
-	if c.N != 4 {
-		return fmt.Errorf("%w: CharPoly exists for Matrix4 only", kit.ErrInfra)
-	}
-	c.label(o)
-	m := c.dense()
-	p := toNum4(m).CharPoly()
-	if len(p) != 5 {
-		return fmt.Errorf("CharPoly has %d coefficients, want 5", len(p))
-	}
-	// det(M - xI) is monic for n = 4 under both sign conventions
-	for _, x := range c.W {
-		a := m
-		a.a = append([]float64(nil), m.a...)
-		for i := 0; i < 4; i++ {
-			a.set(i, i, a.at(i, i)-x)
-		}
-		want := detD(a)
-		got := horner(p, x)
-		// |x| <= 4, ||M|| <= 3: |det| <= 7^4 = 2401; 24-term sums of 4-fold products: error << 1e-10
-		if e := math.Abs(got - want); !within("charpoly/eval", e, 1e-10) {
-			return fmt.Errorf("CharPoly(%g) = %g, det(M - xI) = %g; M=%v", x, got, want, m.a)
-		}
-	}
-	if c.Sym {
-		for _, l := range c.S {
-			if e := math.Abs(horner(p, l)); !within("charpoly/planted-root", e, 1e-10) {
-				return fmt.Errorf("CharPoly(%g) = %g at a planted eigenvalue; M=%v", l, horner(p, l), m.a)
+func svd4NoiseRow(c matCase) bool {
+	_, q2 := c.factors()
+	n := c.N
+	for k := 0; k < n; k++ {
+		lo, hi := math.Inf(1), 0.0
+		for i := 0; i < n; i++ {
+			var r float64
+			for j := 0; j < n; j++ {
+				d := c.S[j]*c.S[j] - c.S[k]*c.S[k]
+				r += d * d * q2.at(i, j) * q2.at(i, j)
 			}
+			r = math.Sqrt(r)
+			lo, hi = math.Min(lo, r), math.Max(hi, r)
+		}
+		// all rows at noise level (M^T M is a multiple of the identity up to 1e-6): every basis is a
+		// valid answer and the defect is harmless; otherwise a small row is enough
+		if lo < svd4RowThreshold && hi >= 1e-6 {
+			return true
 		}
 	}
-	return nil
-}
-
-// ---------------------------------------------------------------------------
-// rotations
-
-type rotCase struct {
-	Dim   int     `json:"dim"`
-	Impl  string  `json:"impl"`
-	Axis  kit.V3  `json:"axis"` // direction, normalised by the check (the constructors assume unit axes)
-	Angle float64 `json:"angle"`
-}
-
-func genRot(t *rapid.T) rotCase {
-	c := rotCase{Dim: rapid.IntRange(2, 3).Draw(t, "dim"), Impl: rapid.SampledFrom([]string{"numerical", "model"}).Draw(t, "impl")}
-	c.Axis = gen.Dir3(t, "axis")
-	c.Angle = gen.F(t, -10, 10, "angle")
-	return c
-}
-
-func checkRotation(c rotCase, o *kit.Obs) error {
-	o.Labelf("dim:%d/%s", c.Dim, c.Impl)
-	if math.Abs(math.Sin(c.Angle)) > 1e-3 {
-		o.NonTrivial()
-	}
-	co, si := math.Cos(c.Angle), math.Sin(c.Angle)
-	const tol = 1e-13
-	if c.Dim == 2 {
-		var got dmat
-		if c.Impl == "numerical" {
-			got = fromSlice(2, numerical.NewMatrix2Rotation(c.Angle)[:])
-		} else {
-			got = fromSlice(2, model2d.NewMatrix2Rotation(c.Angle)[:])
-		}
-		want := fromSlice(2, []float64{co, -si, si, co})
-		if e := maxDiffD(got, want); !within("rotation/2d", e, tol) {
-			return fmt.Errorf("NewMatrix2Rotation(%g) = %v, want the counter-clockwise rotation %v", c.Angle, got.a, want.a)
-		}
-		return nil
-	}
-	n := c.Axis.Norm()
-	if !(n > 0.1) {
-		return fmt.Errorf("%w: degenerate axis", kit.ErrInfra)
-	}
-	k := c.Axis.Scale(1 / n)
-	ax := 0
-	for i := 0; i < 3; i++ {
-		if k[i] != 0 {
-			ax++
-		}
-	}
-	if ax == 1 {
-		o.Label("axis-aligned")
-	}
-	var got dmat
-	if c.Impl == "numerical" {
-		got = fromSlice(3, numerical.NewMatrix3Rotation(numerical.Vec3{k[0], k[1], k[2]}, c.Angle)[:])
-	} else {
-		got = fromSlice(3, model3d.NewMatrix3Rotation(model3d.XYZ(k[0], k[1], k[2]), c.Angle)[:])
-	}
-	// Rodrigues: R = cos I + sin [k]x + (1-cos) k k^T (right-handed about k)
-	want := newD(3)
-	kx := [3][3]float64{{0, -k[2], k[1]}, {k[2], 0, -k[0]}, {-k[1], k[0], 0}}
-	for i := 0; i < 3; i++ {
-		for j := 0; j < 3; j++ {
-			v := si*kx[i][j] + (1-co)*k[i]*k[j]
-			if i == j {
-				v += co
-			}
-			want.set(i, j, v)
-		}
-	}
-	if e := maxDiffD(mulD(tD(got), got), identD(3)); !within("rotation/orthogonal", e, tol) {
-		return fmt.Errorf("rotation about %v by %g is not orthogonal (R^T R - I = %g)", k, c.Angle, e)
-	}
-	if e := math.Abs(detD(got) - 1); !within("rotation/det", e, tol) {
-		return fmt.Errorf("rotation about %v by %g has determinant %g", k, c.Angle, detD(got))
-	}
-	if e := maxDiffV(mulVecD(got, k[:]), k[:]); !within("rotation/axis", e, tol) {
-		return fmt.Errorf("rotation about %v by %g moves its axis to %v", k, c.Angle, mulVecD(got, k[:]))
-	}
-	if e := maxDiffD(got, want); !within("rotation/rodrigues", e, tol) {
-		return fmt.Errorf("rotation about %v by %g = %v, Rodrigues' formula (right-handed) gives %v", k, c.Angle, got.a, want.a)
-	}
-	return nil
-}
-
-// ---------------------------------------------------------------------------
-// OrthoBasis
-
-type basisCase struct {
-	Kind string     `json:"kind"` // coord3d | vec3 | vec4
-	V    [4]float64 `json:"v"`
-}
-
-func genBasis(t *rapid.T) basisCase {
-	c := basisCase{Kind: rapid.SampledFrom([]string{"coord3d", "vec3", "vec4"}).Draw(t, "kind")}
-	n := 3
-	if c.Kind == "vec4" {
-		n = 4
-	}
-	mode := rapid.SampledFrom([]string{"generic", "generic", "axis", "near-axis", "equal-abs"}).Draw(t, "mode")
-	scale := gen.LogF(t, 1e-3, 1e3, "scale")
-	k := rapid.IntRange(0, n-1).Draw(t, "k")
-	for i := 0; i < n; i++ {
-		x := gen.F(t, 0.05, 1, "x")
-		if rapid.Bool().Draw(t, "neg") {
-			x = -x
-		}
-		switch mode {
-		case "axis":
-			if i != k {
-				x = 0
-			}
-		case "near-axis":
-			if i != k {
-				x *= 1e-9
-			}
-		case "equal-abs":
-			if i != k {
-				x = math.Copysign(0.5, x)
-			}
-		}
-		c.V[i] = x * scale
-	}
-	return c
-}
-
-func checkBasis(c basisCase, o *kit.Obs) error {
-	n := 3
-	if c.Kind == "vec4" {
-		n = 4
-	}
-	v := append([]float64(nil), c.V[:n]...)
-	var norm float64
-	nz := 0
-	for _, x := range v {
-		norm += x * x
-		if x != 0 {
-			nz++
-		}
-	}
-	norm = math.Sqrt(norm)
-	if !(norm > 0) || !finiteAll(v...) {
-		return fmt.Errorf("%w: zero vector", kit.ErrInfra)
-	}
-	o.Label("kind:" + c.Kind)
-	if nz == 1 {
-		o.Label("axis-aligned")
-	} else {
-		o.NonTrivial()
-	}
-	var vecs [][]float64
-	vecs = append(vecs, v)
-	for i := range vecs[0] {
-		vecs[0][i] /= norm
-	}
-	switch c.Kind {
-	case "coord3d":
-		a, b := model3d.XYZ(c.V[0], c.V[1], c.V[2]).OrthoBasis()
-		vecs = append(vecs, []float64{a.X, a.Y, a.Z}, []float64{b.X, b.Y, b.Z})
-	case "vec3":
-		a, b := numerical.Vec3{c.V[0], c.V[1], c.V[2]}.OrthoBasis()
-		vecs = append(vecs, a[:], b[:])
-	default:
-		a, b, d := numerical.Vec4(c.V).OrthoBasis()
-		vecs = append(vecs, a[:], b[:], d[:])
-	}
-	// orthonormality to 1e-12 (measured 4e-16)
-	for i := 0; i < len(vecs); i++ {
-		for j := i; j < len(vecs); j++ {
-			var d float64
-			for k := 0; k < n; k++ {
-				d += vecs[i][k] * vecs[j][k]
-			}
-			want := 0.0
-			if i == j {
-				want = 1
-			}
-			if !within("orthobasis/gram", math.Abs(d-want), 1e-12) {
-				return fmt.Errorf("%s OrthoBasis of %v: <b%d, b%d> = %g, want %g (b0 = normalised input); basis %v", c.Kind, v, i, j, d, want, vecs[1:])
-			}
-		}
-	}
-	if nz == 1 {
-		// documented: "If v is axis-aligned, the other vectors will be as well."
-		for i := 1; i < len(vecs); i++ {
-			cnt := 0
-			for _, x := range vecs[i] {
-				if x != 0 {
-					cnt++
-				}
-			}
-			if cnt != 1 {
-				return fmt.Errorf("%s OrthoBasis of axis-aligned %v returned %v, which is not axis-aligned", c.Kind, c.V[:n], vecs[i])
-			}
-		}
-	}
-	if c.Kind == "vec4" {
-		// the code states (and the repository's own test asserts) a positive determinant of [v, b1, b2, b3]
-		m := newD(4)
-		for col := 0; col < 4; col++ {
-			for r := 0; r < 4; r++ {
-				m.set(r, col, vecs[col][r])
-			}
-		}
-		if d := detD(m); !within("orthobasis/det4", math.Abs(d-1), 1e-12) {
-			return fmt.Errorf("Vec4 OrthoBasis of %v: det[v, b1, b2, b3] = %g, want +1", v, d)
-		}
-	}
-	return nil
+	return false
 }
 
 // ---------------------------------------------------------------------------
 // least squares (3 unknowns)
+
+// relative residual tolerance of the normal equations by eigenvalue-cluster multiplicity
+var lsqTol = []float64{0, 1e-9, 1e-5, 1e-3}
+
+// jacobiEig returns the eigenvalues of a symmetric matrix by cyclic Jacobi rotations.
+func jacobiEig(m dmat) []float64 {
+	n := m.n
+	a := fromSlice(n, m.a)
+	for sweep := 0; sweep < 30; sweep++ {
+		var off float64
+		for i := 0; i < n; i++ {
+			for j := i + 1; j < n; j++ {
+				off += a.at(i, j) * a.at(i, j)
+			}
+		}
+		if off < 1e-40 {
+			break
+		}
+		for p := 0; p < n; p++ {
+			for q := p + 1; q < n; q++ {
+				if a.at(p, q) == 0 {
+					continue
+				}
+				th := (a.at(q, q) - a.at(p, p)) / (2 * a.at(p, q))
+				t := 1 / (math.Abs(th) + math.Sqrt(th*th+1))
+				if th < 0 {
+					t = -t
+				}
+				c := 1 / math.Sqrt(t*t+1)
+				s := t * c
+				g := givens(n, p, q, 0)
+				g.set(p, p, c)
+				g.set(q, q, c)
+				g.set(p, q, s)
+				g.set(q, p, -s)
+				a = mulD(mulD(tD(g), a), g)
+			}
+		}
+	}
+	ev := make([]float64, n)
+	for i := range ev {
+		ev[i] = a.at(i, i)
+	}
+	return ev
+}
 
 type lsqCase struct {
 	Core   matCase      `json:"core"` // first three rows: a well-conditioned 3x3 block
@@ -680,7 +450,7 @@ func checkLsq(c lsqCase, o *kit.Obs) error {
 	if err := c.Core.valid(); err != nil {
 		return err
 	}
-	if c.Core.N != 3 || len(c.B) != 3+len(c.Extra) || !(c.Eps >= 1e-9 && c.Eps <= 1e-4) || c.Lambda < 0 {
+	if c.Core.N != 3 || len(c.B) != 3+len(c.Extra) || !(c.Eps >= 0.99e-9 && c.Eps <= 1.01e-4) || c.Lambda < 0 {
 		return fmt.Errorf("%w: malformed least-squares case", kit.ErrInfra)
 	}
 	core := c.Core.dense()
@@ -690,6 +460,12 @@ func checkLsq(c lsqCase, o *kit.Obs) error {
 	}
 	rows = append(rows, c.Extra...)
 	var null [3]float64
+	// magnitude of the rows before the rank-2 projection: the projected rows keep a rounding residue
+	// of this size (times eps) along the null direction, where the pseudo-inverse does not solve
+	var preScale float64
+	for r, row := range rows {
+		preScale = math.Max(preScale, maxAbsV(row[:])*math.Abs(c.B[r]))
+	}
 	if c.Rank2 {
 		// rows <- rows (I - q q^T), q = first column of the right factor: A^T A keeps two eigenvalues
 		// >= 0.09 and gets an exact null direction q (computed eigenvalue ~1e-16, far below eps >= 1e-9
@@ -749,11 +525,29 @@ func checkLsq(c lsqCase, o *kit.Obs) error {
 		}
 	}
 	lhs := mulVecD(ata, x[:])
-	scale := maxAbsV(atb) + maxAbsV(ata.a)*maxAbsV(x[:])
-	// the symmetric eigen-decomposition behind the pseudo-inverse is closed-form (cubic formula):
-	// measured worst relative residual 2e-9 on near-repeated eigenvalues; tolerance 1e-6
-	if e := maxDiffV(lhs, atb); !within("lsq/normal-eq", e, 1e-6*scale) {
-		return fmt.Errorf("normal equations violated: (A^T A + %g I) x = %v, A^T b = %v (difference %g, tolerance %g); x = %v", c.Lambda, lhs, atb, e, 1e-6*scale, x)
+	// magnitudes before cancellation: A^T b is a sum over rows that may cancel (b nearly orthogonal to
+	// the columns), and its rounding error is relative to the terms, not to the sum
+	var terms float64
+	for i := 0; i < 3; i++ {
+		var tsum float64
+		for r, row := range rows {
+			tsum += math.Abs(row[i] * c.B[r])
+		}
+		terms = math.Max(terms, tsum)
+	}
+	scale := terms + maxAbsV(ata.a)*maxAbsV(x[:])
+	if c.Rank2 {
+		scale += float64(len(rows)) * preScale
+	}
+	// the symmetric eigen-decomposition behind the pseudo-inverse is closed-form (cubic formula), so
+	// its accuracy depends on the multiplicity of the largest cluster of eigenvalues of A^T A + lambda I
+	// (see svdTol); the eigenvalues are recomputed here by Jacobi rotations
+	ev := jacobiEig(ata)
+	mult := clusterMult(ev, clusterGap*maxAbsV(ev))
+	o.Labelf("cluster:%d", mult)
+	tol := lsqTol[mult] * scale
+	if e := maxDiffV(lhs, atb); !within(fmt.Sprintf("lsq/normal-eq/m%d", mult), e, tol) {
+		return fmt.Errorf("normal equations violated: (A^T A + %g I) x = %v, A^T b = %v (difference %g, tolerance %g); x = %v", c.Lambda, lhs, atb, e, tol, x)
 	}
 	return nil
 }
